@@ -56,6 +56,8 @@ fn main() {
 
     let cli = Cli::parse();
     let use_color = !cli.no_color && io::stdout().is_terminal();
+    // Under `--output json` every failure below is also reported as one JSON document on stdout
+    let json_output = wants_json(&cli.command);
 
     // Handle -C directory flag
     if let Some(ref dir) = cli.directory {
@@ -63,6 +65,7 @@ fn main() {
             .with_context(|| format!("Failed to change to directory: {}", dir.display()))
             .unwrap_or_else(|e| {
                 eprintln!("Error: {e:#}");
+                emit_json_error(json_output, &format!("{e:#}"));
                 process::exit(2);
             });
     }
@@ -78,8 +81,9 @@ fn main() {
     );
 
     if needs_renamify_dir && !cli.no_auto_init {
-        if let Err(e) = check_and_auto_init(&cli.auto_init, cli.yes) {
+        if let Err(e) = check_and_auto_init(&cli.auto_init, cli.yes, json_output) {
             eprintln!("Error during auto-initialization: {e:#}");
+            emit_json_error(json_output, &format!("auto-initialization failed: {e:#}"));
             process::exit(2);
         }
     }
@@ -373,6 +377,7 @@ fn main() {
         },
         Err(e) => {
             eprintln!("Error: {e:#}");
+            emit_json_error(json_output, &format!("{e:#}"));
 
             // Determine exit code based on error type
             let exit_code = if e.to_string().contains("conflict") {
@@ -433,7 +438,55 @@ fn is_pattern_in_content(content: &str) -> bool {
         })
 }
 
-fn check_and_auto_init(auto_init: &Option<String>, yes: bool) -> Result<()> {
+/// `--output json` was requested for this command
+fn wants_json(command: &Commands) -> bool {
+    matches!(
+        command,
+        Commands::Plan {
+            output: OutputFormat::Json,
+            ..
+        } | Commands::Search {
+            output: OutputFormat::Json,
+            ..
+        } | Commands::Rename {
+            output: OutputFormat::Json,
+            ..
+        } | Commands::Replace {
+            output: OutputFormat::Json,
+            ..
+        } | Commands::Apply {
+            output: OutputFormat::Json,
+            ..
+        } | Commands::Undo {
+            output: OutputFormat::Json,
+            ..
+        } | Commands::Redo {
+            output: OutputFormat::Json,
+            ..
+        } | Commands::Status {
+            output: OutputFormat::Json,
+            ..
+        } | Commands::History {
+            output: OutputFormat::Json,
+            ..
+        } | Commands::Version {
+            output: OutputFormat::Json,
+        }
+    )
+}
+
+/// Machine-readable counterpart of an error message: with `--output json` a failing command still writes exactly one
+/// JSON document to stdout (the message itself goes to stderr as before, and the exit code is unchanged)
+fn emit_json_error(json_output: bool, message: &str) {
+    if json_output {
+        println!(
+            "{}",
+            serde_json::json!({ "success": false, "error": message })
+        );
+    }
+}
+
+fn check_and_auto_init(auto_init: &Option<String>, yes: bool, json_output: bool) -> Result<()> {
     // If .renamify is already ignored, nothing to do
     if is_renamify_ignored()? {
         return Ok(());
@@ -444,6 +497,7 @@ fn check_and_auto_init(auto_init: &Option<String>, yes: bool) -> Result<()> {
         eprintln!("\n⚠ Error: .renamify directory is already tracked by git.");
         eprintln!("  Please run: git rm -r --cached .renamify");
         eprintln!("  Then run your command again.");
+        emit_json_error(json_output, ".renamify directory is already tracked by git");
         process::exit(1);
     }
 
@@ -456,6 +510,7 @@ fn check_and_auto_init(auto_init: &Option<String>, yes: bool) -> Result<()> {
             "global" => InitMode::Global,
             _ => {
                 eprintln!("Invalid auto-init mode: {mode}. Use repo, local, or global.");
+                emit_json_error(json_output, &format!("Invalid auto-init mode: {mode}"));
                 process::exit(2);
             },
         }
